@@ -811,4 +811,97 @@ theorem pollLoop_ok_started {kind : Container} {nItems nProc : Nat} {keyOf : Nat
   | failed c s1 => simp [h1] at h
   | spin s1 => simp [h1] at h
 
+/-! ### completeness: if every worker exits 0 and its exit code becomes visible, the loop succeeds -/
+
+theorem winnow_all_done {kind : Container} {exit : Nat → Int} {poll : Poll} {c : Procs}
+    (hseen : ∀ e ∈ c, e.2 ∈ poll) (hzero : ∀ e ∈ c, exit e.2 = 0) :
+    winnow kind exit poll c = .ok [] := by
+  have hbad : ∀ p ∈ c.map (fun e => (e, view exit poll e.2)), badCode p.2 = none := by
+    intro p hp
+    obtain ⟨e, he, rfl⟩ := List.mem_map.mp hp
+    simp only
+    rw [view_of_mem (hseen e he), hzero e he]
+    simp [badCode]
+  have hfilter : (c.map (fun e => (e, view exit poll e.2))).filter (fun p => p.2.isNone) = [] := by
+    rw [List.filter_eq_nil_iff]
+    intro p hp
+    obtain ⟨e, he, rfl⟩ := List.mem_map.mp hp
+    simp [view_of_mem (hseen e he)]
+  cases kind with
+  | list =>
+    simp only [winnow, winnowList_eq, (lastBad_none_iff _).mpr hbad, hfilter, List.map_nil]
+  | dict =>
+    simp only [winnow, winnowDict_eq, (firstBadKey_none_iff _).mpr hbad, hfilter, List.map_nil]
+
+/-- every poll of the schedule sees every worker `< n` -/
+def SeesAll (n : Nat) (sched : List Poll) : Prop := ∀ poll ∈ sched, ∀ w, w < n → w ∈ poll
+
+theorem waitBelow_all_done {kind : Container} {exit : Nat → Int} {limit n : Nat} (hl : 0 < limit)
+    (procs : Procs) (sched : List Poll) (hs : SeesAll n sched) (hne : sched ≠ [])
+    (hp : ∀ e ∈ procs, e.2 < n) (hz : ∀ w, w < n → exit w = 0) :
+    ∃ procs' sched', waitBelow kind exit limit procs sched = .done procs' sched' ∧
+      sched.length ≤ sched'.length + 1 ∧ SeesAll n sched' ∧ (∀ e ∈ procs', e ∈ procs) := by
+  cases sched with
+  | nil => exact absurd rfl hne
+  | cons poll rest =>
+    simp only [waitBelow]
+    by_cases hlt : procs.length < limit
+    · exact ⟨procs, poll :: rest, by simp [hlt], by simp, hs, fun e he => he⟩
+    · simp only [hlt, if_false]
+      have hw : winnow kind exit poll procs = .ok [] :=
+        winnow_all_done (fun e he => hs poll (by simp) e.2 (hp e he))
+          (fun e he => hz e.2 (hp e he))
+      rw [hw]
+      have hrest : SeesAll n rest := fun q hq => hs q (List.mem_cons_of_mem _ hq)
+      cases rest with
+      | nil =>
+        refine ⟨[], [], by simp [waitBelow, hl], by simp, hrest, fun e he => by cases he⟩
+      | cons q r =>
+        refine ⟨[], q :: r, by simp [waitBelow, hl], by simp, hrest, fun e he => by cases he⟩
+
+/-- one iteration of the canonical loop body under an all-seeing schedule -/
+theorem canonical_body_all_done {kind : Container} {env : Env} (hk : KeysOK kind env.keyOf)
+    (hproc : 0 < env.nProc) {n : Nat} (hz : ∀ w, w < n → env.exit w = 0) (s : St)
+    (hg : Good env s) (hst : s.started < n) (hs : SeesAll n s.sched) (hne : s.sched ≠ []) :
+    ∃ s', execBody kind env [.start true, .pollWhileFull] s = .ok s' ∧ Good env s' ∧
+      s'.started = s.started + 1 ∧ s.sched.length ≤ s'.sched.length + 1 ∧ SeesAll n s'.sched := by
+  have h1 : execLoopStmt kind env (.start true) s = .ok
+      { s with started := s.started + 1,
+               procs := register kind s.procs (env.keyOf s.started) s.started } := by
+    simp [execLoopStmt]
+  have hg1 := execLoopStmt_good hk (by decide) hg h1
+  have hp1 : ∀ e ∈ register kind s.procs (env.keyOf s.started) s.started, e.2 < n := by
+    intro e he
+    have := (hg1.keyed e he).2
+    simp only at this
+    omega
+  obtain ⟨p', sc', hw, hlen, hsee, hsub⟩ :=
+    waitBelow_all_done (kind := kind) (exit := env.exit) hproc _ s.sched hs hne hp1 hz
+  refine ⟨{ s with started := s.started + 1, procs := p', sched := sc' }, ?_, ?_, rfl, hlen, hsee⟩
+  · simp only [execBody, execLoopStmt, if_true, hw]
+  · have h2 : execLoopStmt kind env .pollWhileFull
+        { s with started := s.started + 1,
+                 procs := register kind s.procs (env.keyOf s.started) s.started } =
+        .ok { s with started := s.started + 1, procs := p', sched := sc' } := by
+      simp only [execLoopStmt, hw]
+    exact execLoopStmt_good hk (by decide) hg1 h2
+
+theorem canonical_dispatch_all_done {kind : Container} {env : Env} (hk : KeysOK kind env.keyOf)
+    (hproc : 0 < env.nProc) {n : Nat} (hz : ∀ w, w < n → env.exit w = 0) (k : Nat) (s : St)
+    (hg : Good env s) (hst : s.started + k ≤ n) (hs : SeesAll n s.sched)
+    (hlen : k < s.sched.length) :
+    ∃ s', execDispatch kind env [.start true, .pollWhileFull] k s = .ok s' ∧ Good env s' ∧
+      s'.started = s.started + k ∧ s.sched.length ≤ s'.sched.length + k ∧ SeesAll n s'.sched := by
+  induction k generalizing s with
+  | zero => exact ⟨s, rfl, hg, rfl, by simp, hs⟩
+  | succ k ih =>
+    have hne : s.sched ≠ [] := by
+      intro hc; rw [hc] at hlen; simp at hlen
+    obtain ⟨s1, h1, hg1, hst1, hl1, hs1⟩ :=
+      canonical_body_all_done hk hproc hz s hg (by omega) hs hne
+    obtain ⟨s2, h2, hg2, hst2, hl2, hs2⟩ :=
+      ih s1 hg1 (by omega) hs1 (by omega)
+    refine ⟨s2, ?_, hg2, by omega, by omega, hs2⟩
+    simp only [execDispatch, h1, h2]
+
 end CTM.Procs
